@@ -38,6 +38,7 @@ def TIE(mod, *names):
 
 SWCOR = {c: TIE("SwCorollaries", *[n for n in ("gen_C01_roundtrip", "gen_C01_normal", "gen_C01_fast", "gen_C01_nocheck", "gen_C01_check", "gen_C01_total_normal", "gen_C01_total_fast", "gen_C01_total_roundtrip", "gen_C01_zero", "gen_C05_encode_meets_spec", "gen_C05_spec_unique", "gen_C05_decode_value", "gen_C05_fast_meets_spec", "gen_C05_fast_decode_value", "gen_C06_normal", "gen_C06_normal_iff", "gen_C06_fast", "gen_C06_fast_iff", "gen_C06_table_independent", "gen_C07_shape", "gen_C07_foreign", "gen_C07_subst", "gen_C07_insert", "gen_C07_delete", "gen_C07_decode_rejects", "gen_C07_encode_subst_rejected",) if n.startswith("gen_" + c)]) for c in ("C01", "C05", "C06", "C07")}
 TIE_SW = TIE("SwVt", "tie_set_vt") + TIE("SwEncode", "tie_encode") + TIE("SwDecode", "tie_decode")
+TIE_REP = TIE("SwRepair", "tie_repair_dna") + TIE("GzPath", "tie_path_matching")
 TIE_GZ = TIE("GzArith", "tie_obtain_latters", "tie_obtain_formers", "tie_get_complete_accessor")
 TIE_OPERATION = (TIE("OpAdd", "tie_calculus_addition") + TIE("OpSub", "tie_calculus_subtraction") +
                  TIE("OpMul", "tie_calculus_multiplication") + TIE("OpDiv", "tie_calculus_division") +
@@ -74,13 +75,13 @@ PROPS = {
                                           "C07_decode_rejects") + TIE_SW[:1] + TIE_SW[2:] + SWCOR["C07"], tie=[("spiderweb", ["set_vt", "decode"]), ("operation", ["number_to_dna"])], gens=["C07", "GENSW"],
                 rule="all strands up to a length bound x check lengths x all single edits, plus long random strands "
                      "and check lengths up to 200; non-trivial = length >= 2 with at least one ascent"),
-    "C08": dict(level="proof", theorems=T("C08", "C08_single", "C08_single_subst", "C08_multi", "C08_single_subst_only", "C08_single_ins", "C08_single_del") + T("C09", "C09_clean") + T("EndToEnd", "E2E_single_edit", "E2E_repair_then_decode") + T("C08b", "C08_path_matching_sound", "C08_path_matching_complete", "C08_path_matching_error"), gens=["C08"],
+    "C08": dict(level="proof", theorems=T("C08", "C08_single", "C08_single_subst", "C08_multi", "C08_single_subst_only", "C08_single_ins", "C08_single_del") + T("C09", "C09_clean") + T("EndToEnd", "E2E_single_edit", "E2E_repair_then_decode") + T("C08b", "C08_path_matching_sound", "C08_path_matching_complete", "C08_path_matching_error") + TIE_REP, tie=[("spiderweb", ["repair_dna", "set_vt"]), ("graphized", ["path_matching"])], gens=["C08", "GENSW"],
                 rule="generated graphs x walks x (all single interior edits | spaced multi-edit sets) x check x indel; "
                      "non-trivial = at least one detection"),
-    "C09": dict(level="proof", theorems=T("C09", "C09_clean", "C09_sorted_nodup", "C09_check"), gens=["C09"],
+    "C09": dict(level="proof", theorems=T("C09", "C09_clean", "C09_sorted_nodup", "C09_check") + TIE_REP, tie=[("spiderweb", ["repair_dna", "set_vt"]), ("graphized", ["path_matching"])], gens=["C09", "GENSW"],
                 rule="walks / corrupted / random strings x graphs x check absent/right/wrong x indel x heap limits; "
                      "non-trivial = a detection happened or the strand is a clean walk"),
-    "C10": dict(level="proof", theorems=T("C10", "C10_total", "C10_scan_terminates", "C10_lookups"), gens=["C10"],
+    "C10": dict(level="proof", theorems=T("C10", "C10_total", "C10_scan_terminates", "C10_lookups") + TIE_REP, tie=[("spiderweb", ["repair_dna"]), ("graphized", ["path_matching"])], gens=["C10", "GENSW"],
                 rule="ACGT strings >= one window (bad first symbol, error in last window, random, heavily edited) x "
                      "graphs x options under a look-up budget; non-trivial = at least one detection"),
     "C11": dict(level="proof", theorems=T("C11", "C11_mask", "C11_valid_graph"), gens=["C11"],
